@@ -58,6 +58,7 @@ C04ToReason(e, s) ==
       sz == Len(ref)
   IN
   IF e.res = "panic" THEN "outcome_panic"
+  ELSE IF Drop(e.after, e.dstlen) # Drop(e.before, e.dstlen) THEN "wrote_beyond_destination"      \* before/after cover the arena behind dst
   ELSE IF e.dstlen < sz THEN
          (IF e.res # "err" THEN "short_dst_accepted"
           ELSE IF e.errkind # "short_buffer" THEN "short_dst_wrong_error" ELSE "")
